@@ -5,7 +5,7 @@ import json, os, subprocess, sys, time, shutil
 VERIF = os.environ.get("VERIF_DIR", "/verif")   # a copy of /verif may be used so that /verif itself stays usable meanwhile
 WT = os.environ.get("VERIF_WT", "/tmp/seedwt")
 SD = os.environ.get("VERIF_SEEDDIR", "seeded")   # "harmless" = the behaviour-preserving rewrites (every V there is a false alarm)
-CHECKS = ["C%02d" % i for i in range(1, 20)]
+CHECKS = os.environ.get("VERIF_CHECKS", "").split() or ["C%02d" % i for i in range(1, 20)]   # a subset may be given
 seeds = sys.argv[1:] or sorted(d for d in os.listdir(VERIF + "/" + SD) if os.path.isfile(VERIF + "/" + SD + "/%s/patch.diff" % d))
 subprocess.run(["git", "-C", "/repo", "worktree", "remove", "--force", WT], stderr=subprocess.DEVNULL)
 subprocess.run(["git", "-C", "/repo", "worktree", "add", "-q", "--detach", WT, "HEAD"], check=True)
